@@ -98,13 +98,16 @@ def st_gm(draw):
          "cplx": draw(st.booleans()), "A": draw(st.sampled_from(["spectrum", "spectrum", "nesterov", "correlated", "dyadic"])),
          "smin": draw(st.sampled_from([1.0, 0.3, 0.1, 1 / 30.0])), "g": draw(st.sampled_from(["none", "l1", "l2", "box"])),
          "mu": draw(st.sampled_from([0.05, 0.25, 1.0])), "c": draw(st.sampled_from([1.0, 1.0, 0.9, 0.5, 0.1])),
-         "accelerate": draw(st.booleans()), "K": draw(st.sampled_from([20, 60, 150, 300])),
+         "accelerate": draw(st.booleans()), "K": draw(st.sampled_from([1, 2, 3, 20, 60, 150, 300])),
+         # precision of the caller's iterate: the system's (double) or single (updates are then rounded into it)
+         "xsingle": draw(st.sampled_from([False] * 5 + [True])),
          "start": draw(st.sampled_from(["zero", "rand", "rand", "optimum"])), "func": draw(st.booleans()),
          # memory layout of the caller's x; "alias": f = 1/2||x||^2 handed over as gradf = lambda v: v (returns its argument)
          "layout": draw(st.sampled_from(["c", "c", "c", "strided", "revstride"])),
          "alias": draw(st.sampled_from([False] * 7 + [True])),
          # how the boolean flag is spelled by the caller: Python bool, numpy.bool_ (a comparison result), or 0/1
-         "flag": draw(st.sampled_from(["bool", "bool", "np.bool_", "int"]))}
+         "flag": draw(st.sampled_from(["bool", "bool", "np.bool_", "int"])),
+         "positional": draw(st.sampled_from([False, False, True]))}
     if c["g"] == "box":
         c["cplx"] = False
     if c["alias"]:
@@ -143,10 +146,16 @@ def check_gm(case):
         x = (rng.standard_normal(n) + (1j * rng.standard_normal(n) if cplx else 0)).astype(dt)
         if gkind == "box":
             x = np.clip(x, -mu, mu)
+    single = bool(case.get("xsingle"))
+    if single:
+        x = x.astype(np.complex64 if cplx else np.float32)
+        r.label("x:single-precision")
+    eps_s = 1e4 if single else 1.0          # rounding of the iterate into single precision
     x = A_.relayout(x, case.get("layout", "c"))
     if case.get("layout", "c") != "c":
         r.label("x-layout:" + case["layout"])
     x_passed = x
+    x_twin = np.array(x, copy=True)
     gradf = (lambda v: Am.conj().T @ (Am @ v - y))
     if case.get("alias"):
         gradf = (lambda v: v)
@@ -157,16 +166,28 @@ def check_gm(case):
         acc = np.bool_(acc)
     elif case.get("flag") == "int":
         acc = int(acc)
-    alg = sp.alg.GradientMethod(gradf, x, alpha, proxg=pg, accelerate=acc, max_iter=case["K"], tol=0)
+    if case.get("positional"):
+        alg = sp.alg.GradientMethod(gradf, x, alpha, pg, acc, case["K"], 0)    # (gradf, x, alpha, proxg, accelerate, max_iter, tol)
+    else:
+        alg = sp.alg.GradientMethod(gradf, x, alpha, proxg=pg, accelerate=acc, max_iter=case["K"], tol=0)
+    # the iterates must not depend on the iteration budget: a twin with a larger max_iter is advanced alongside
+    if case.get("positional"):
+        twin = sp.alg.GradientMethod(gradf, x_twin, alpha, pg, acc, case["K"] + 7, 0)
+    else:
+        twin = sp.alg.GradientMethod(gradf, x_twin, alpha, proxg=pg, accelerate=acc, max_iter=case["K"] + 7, tol=0)
     d0 = float(np.linalg.norm(x - xs) ** 2)
     # the reference optimum is certified by its duality gap only: ||x_ref - x*|| <= sqrt(2 gap / mu_F) with mu_F the
     # strong-convexity modulus of F; the prox-gradient map is non-expansive, so a start at x_ref may move by twice that
     muF = float(np.linalg.eigvalsh(Am.conj().T @ Am)[0]) + (mu if gkind == "l2z" else 0.0)
     gapc = max(float(ref.get("gap", 0.0)), 0.0) + 1e-15 * max(abs(float(ref["hi"])), 1.0)
-    opt_tol = 1e-8 * (1 + np.linalg.norm(xs)) + 2.0 * np.sqrt(2.0 * gapc / max(muF, 1e-300))
+    opt_tol = 1e-8 * eps_s * (1 + np.linalg.norm(xs)) + 2.0 * np.sqrt(2.0 * gapc / max(muF, 1e-300))
     F_prev = prob.F(x)
     scale = max(abs(Fs), abs(F_prev), 1e-12)
     slack = 1e-9 * scale + 1e-7 * max(F_prev - Fs, 0)
+    if single:
+        # an iterate held in single precision carries an error delta ~ 1e-6 (1 + ||x||); the objective then moves by
+        # up to ||grad F|| delta + L delta^2 / 2 <= L (||x - x*|| + delta) delta: an ABSOLUTE term, not relative to F
+        slack = slack * eps_s + 1e-5 * (L + 1.0) * (1.0 + float(np.linalg.norm(xs)) + float(np.linalg.norm(x.astype(dt)))) ** 2
     checked = 0
     nonvac = 0
     for k in range(1, case["K"] + 1):
@@ -180,7 +201,17 @@ def check_gm(case):
         if alg.x is not x_passed:
             r.fail("gm:not-in-place", "alg.x is no longer the caller's array after update %d" % k)
             return r
-        Fk = prob.F(x_passed)
+        if k <= 6:
+            try:
+                twin.update()
+                if not np.linalg.norm((x_twin - x_passed).astype(np.complex128)) <= 1e-12 * eps_s * (1 + np.linalg.norm(x_passed.astype(np.complex128))):
+                    r.fail("gm:iterate-depends-on-max_iter", "update %d with max_iter=%d differs from the same update with max_iter=%d by %.3e"
+                           % (k, case["K"], case["K"] + 7, np.linalg.norm((x_twin - x_passed).astype(np.complex128))))
+                    return r
+            except Exception as e:
+                r.fail("gm:update-raises", "%s: %s" % (type(e).__name__, e))
+                return r
+        Fk = prob.F(x_passed.astype(dt))
         if not np.isfinite(Fk):
             r.fail("gm:infeasible-or-nonfinite", "F(x_%d) = %s" % (k, Fk))
             return r
@@ -226,9 +257,11 @@ def st_pdhg(draw):
          "g": draw(st.sampled_from(["none", "l1", "l2", "box"])), "mu": draw(st.sampled_from([0.05, 0.25, 1.0])),
          "steps": draw(st.sampled_from(["scalar", "scalar", "array"])), "c": draw(st.sampled_from([1.0, 1.0, 0.8, 0.3])),
          "ratio": draw(st.sampled_from([1.0, 0.1, 10.0])),
-         "accel": draw(st.sampled_from([None, None, "primal", "dual"])), "K": draw(st.sampled_from([20, 60, 150, 300])),
+         "accel": draw(st.sampled_from([None, None, "primal", "dual"])), "K": draw(st.sampled_from([1, 2, 3, 20, 60, 150, 300])),
+         "xsingle": draw(st.sampled_from([False] * 5 + [True])),
          "start": draw(st.sampled_from(["zero", "rand", "rand", "saddle"])), "func": draw(st.booleans()),
-         "layout": draw(st.sampled_from(["c", "c", "c", "strided", "revstride"]))}
+         "layout": draw(st.sampled_from(["c", "c", "c", "strided", "revstride"])),
+         "positional": draw(st.sampled_from([False, False, True]))}
     if c["g"] == "box":
         c["cplx"] = False
     if c["f"] == "l1":
@@ -305,7 +338,13 @@ def check_pdhg(case):
     else:
         x = (rng.standard_normal(n) + (1j * rng.standard_normal(n) if cplx else 0)).astype(dt)
         u = (rng.standard_normal(m) + (1j * rng.standard_normal(m) if cplx else 0)).astype(dt)
+    single = bool(case.get("xsingle")) and case["accel"] is None
+    if single:
+        x, u = x.astype(np.complex64 if cplx else np.float32), u.astype(np.complex64 if cplx else np.float32)
+        r.label("xu:single-precision")
+    eps_s = 1e4 if single else 1.0
     x, u = A_.relayout(x, case.get("layout", "c")), A_.relayout(u, case.get("layout", "c"))
+    x_twin, u_twin = np.array(x, copy=True), np.array(u, copy=True)
     if case.get("layout", "c") != "c":
         r.label("xu-layout:" + case["layout"])
     x_passed, u_passed = x, u
@@ -333,8 +372,23 @@ def check_pdhg(case):
             AHop = Aop.H
     tau_arg = tau.copy() if isinstance(tau, np.ndarray) else tau
     sig_arg = sigma.copy() if isinstance(sigma, np.ndarray) else sigma
-    alg = sp.alg.PrimalDualHybridGradient(pf, pg, Aop, AHop, x, u, tau_arg, sig_arg, max_iter=case["K"], tol=0, **kw)
-    x0, u0 = x.copy(), u.copy()
+    if case.get("positional"):
+        # (proxfc, proxg, A, AH, x, u, tau, sigma, theta, gamma_primal, gamma_dual, max_iter, tol)
+        alg = sp.alg.PrimalDualHybridGradient(pf, pg, Aop, AHop, x, u, tau_arg, sig_arg, 1, kw.get("gamma_primal", 0),
+                                              kw.get("gamma_dual", 0), case["K"], 0)
+    else:
+        alg = sp.alg.PrimalDualHybridGradient(pf, pg, Aop, AHop, x, u, tau_arg, sig_arg, max_iter=case["K"], tol=0, **kw)
+    if case.get("positional"):
+        twin = sp.alg.PrimalDualHybridGradient(pf, pg, Aop, AHop, x_twin, u_twin,
+                                               tau.copy() if isinstance(tau, np.ndarray) else tau,
+                                               sigma.copy() if isinstance(sigma, np.ndarray) else sigma, 1,
+                                               kw.get("gamma_primal", 0), kw.get("gamma_dual", 0), case["K"] + 7, 0)
+    else:
+        twin = sp.alg.PrimalDualHybridGradient(pf, pg, Aop, AHop, x_twin, u_twin,
+                                               tau.copy() if isinstance(tau, np.ndarray) else tau,
+                                               sigma.copy() if isinstance(sigma, np.ndarray) else sigma,
+                                               max_iter=case["K"] + 7, tol=0, **kw)
+    x0, u0 = x.astype(dt), u.astype(dt)
     E0x, E0u = float(np.linalg.norm(x0 - xs) ** 2), float(np.linalg.norm(u0 - us) ** 2)
     prev_w = None
     d_prev = None
@@ -357,17 +411,35 @@ def check_pdhg(case):
         if not (np.all(np.isfinite(x_passed)) and np.all(np.isfinite(u_passed))):
             r.fail("pdhg:non-finite", "iterate not finite after update %d" % k)
             return r
+        if k <= 6:
+            try:
+                twin.update()
+                dv = max(np.linalg.norm((x_twin - x_passed).astype(np.complex128)), np.linalg.norm((u_twin - u_passed).astype(np.complex128)))
+                if not dv <= 1e-12 * eps_s * (1 + np.linalg.norm(x_passed.astype(np.complex128)) + np.linalg.norm(u_passed.astype(np.complex128))):
+                    r.fail("pdhg:iterate-depends-on-max_iter", "update %d with max_iter=%d differs from the same update with max_iter=%d by %.3e"
+                           % (k, case["K"], case["K"] + 7, dv))
+                    return r
+            except Exception as e:
+                r.fail("pdhg:update-raises", "%s: %s" % (type(e).__name__, e))
+                return r
+        if gkind == "box" and not np.all(np.abs(np.real(x_passed)) <= mu * (1 + 1e-6) + 1e-12):
+            r.fail("pdhg:iterate-outside-dom-g", "after update %d the primal iterate leaves the box |x| <= %g (max %.6g): it is not a "
+                   "value of prox_g" % (k, mu, float(np.max(np.abs(np.real(x_passed))))))
+            return r
         if case["start"] == "saddle" and k <= 2:
             mv = max(np.linalg.norm(x_passed - xs), np.linalg.norm(u_passed - us)) / (1 + np.linalg.norm(xs) + np.linalg.norm(us))
             # the reference saddle point is itself only a fixed point up to its certificate `kkt` (<= 1e-7, computed
             # above as the movement of one exact step); two updates may amplify that by the step operators' norms
-            if not mv <= 1e-7 + 50 * kkt:
+            if not mv <= (1e-7 + 50 * kkt) * eps_s:
                 r.fail("pdhg:saddle-not-fixed:%s" % (case["accel"] or "plain"), "started at the saddle point, update %d moved the iterate by %.3e (relative)" % (k, mv))
                 return r
         if case["accel"] is None:
             w = (x_before, u_passed.copy())     # w_n = (x_n, u_{n+1})
             d = mnorm2(w[0] - xs, w[1] - us, Am, tau_a, sig_a)
             sl = 1e-7 * (abs(d) + E0x / np.min(tau_a) + E0u / np.min(sig_a) + 1e-12)
+            if single:
+                sl = sl * eps_s + 1e-5 * (1.0 / np.min(tau_a) + 1.0 / np.min(sig_a) + nrm) * (
+                    1.0 + float(np.linalg.norm(xs)) + float(np.linalg.norm(us)) + np.sqrt(E0x) + np.sqrt(E0u)) ** 2
             if prev_w is not None:
                 stepM = mnorm2(w[0] - prev_w[0], w[1] - prev_w[1], Am, tau_a, sig_a)
                 steps_M.append(stepM)
